@@ -42,6 +42,7 @@ pub fn gen_c10(rng: &mut Rng, thorough: bool) -> History {
         allow_singular: true,
         draw,
         aligned_clip_paths: false,
+        early_clip_pop: false,
         layer_blend: BlendProfile::Common,
     };
     gen_scene(rng, &mut em, 0, &cfg);
@@ -314,6 +315,7 @@ pub fn gen_c11(rng: &mut Rng, _thorough: bool) -> History {
         allow_singular: true,
         draw,
         aligned_clip_paths: false,
+        early_clip_pop: false,
         layer_blend: BlendProfile::Common,
     };
     // start with a transform so that most draws happen under a non-identity CTM
